@@ -480,3 +480,52 @@ Proof.
   intros s gs a Hc Ha Hd. rewrite succ_char_facts by exact Hc.
   apply atom_in_false in Ha. apply atom_in_In in Hd. rewrite Ha, Hd. simpl. apply andb_false_r.
 Qed.
+
+(* ---------- the order inside the effect lists is immaterial too ---------- *)
+(* the same effect with its primitive effects listed in another order (the library keeps them in hash sets) *)
+Inductive eff_perm : eff -> eff -> Prop :=
+| EP_prims : forall ps ps', Permutation ps ps' -> eff_perm (EPrims ps) (EPrims ps')
+| EP_when : forall c ps ps', Permutation ps ps' -> eff_perm (EWhen c ps) (EWhen c ps')
+| EP_forall : forall v ty c ps ps', Permutation ps ps' -> eff_perm (EForall v ty c ps) (EForall v ty c ps').
+
+(* the effects of an action listed in another order, each with its primitive effects in another order *)
+Definition effs_perm (l l' : list eff) : Prop := exists l1, Permutation l l1 /\ Forall2 eff_perm l1 l'.
+
+Lemma Forall2_perm_refl : forall (A : Type) (l : list (list A)), Forall2 (@Permutation A) l l.
+Proof. induction l; constructor; [apply Permutation_refl | assumption]. Qed.
+
+Lemma Forall2_app' : forall (A : Type) (R : A -> A -> Prop) l1 l1' l2 l2',
+  Forall2 R l1 l1' -> Forall2 R l2 l2' -> Forall2 R (l1 ++ l2) (l1' ++ l2').
+Proof. intros A R l1 l1' l2 l2' H1 H2. induction H1; simpl; [exact H2 | constructor; assumption]. Qed.
+
+Lemma fires_eff_perm : forall eps tt objs e s x x', eff_perm x x' ->
+  Forall2 (@Permutation gprim) (fires eps tt objs e s x) (fires eps tt objs e s x').
+Proof.
+  intros eps tt objs e s x x' H. destruct H as [ps ps' HP | c ps ps' HP | v ty c ps ps' HP]; simpl.
+  - constructor; [apply Permutation_map; exact HP | constructor].
+  - destruct (holds eps tt objs e s c); [constructor; [apply Permutation_map; exact HP | constructor] | constructor].
+  - induction (objects_of_type tt objs ty) as [|o r IH]; simpl; [constructor|].
+    apply Forall2_app'; [|exact IH].
+    destruct (holds eps tt objs ((v, o) :: e) s c); [constructor; [apply Permutation_map; exact HP | constructor] | constructor].
+Qed.
+
+Lemma all_groups_effs_perm : forall eps tt objs A A' args s,
+  a_params A = a_params A' -> effs_perm (a_effs A) (a_effs A') ->
+  rearr (all_groups eps tt objs A args s) (all_groups eps tt objs A' args s).
+Proof.
+  intros eps tt objs A A' args s Hp [l1 [H1 H2]]. unfold all_groups, bind_args. rewrite <- Hp.
+  exists (flat_map (fires eps tt objs (combine (map fst (a_params A)) args) s) l1). split.
+  - apply Permutation_flat_map. exact H1.
+  - clear H1. induction H2 as [|x x' l l' Hx HF IH]; simpl; [constructor|].
+    apply Forall2_app'; [apply fires_eff_perm; exact Hx | exact IH].
+Qed.
+
+Theorem successor_effs_perm : forall eps tt objs A A' args s,
+  a_params A = a_params A' -> effs_perm (a_effs A) (a_effs A') ->
+  consistent (all_groups eps tt objs A args s) = true ->
+  state_eq (successor eps tt objs A args s) (successor eps tt objs A' args s) /\
+  consistent (all_groups eps tt objs A' args s) = true.
+Proof.
+  intros eps tt objs A A' args s Hp He Hc. pose proof (all_groups_effs_perm eps tt objs A A' args s Hp He) as HR.
+  split; [apply succ_rearr; assumption | eapply consistent_rearr; eauto].
+Qed.
